@@ -41,6 +41,7 @@ func runC04(c *Ctx) {
 	c04Extremes(c, impls)
 	c04Windows(c)
 	c04Shift(c, "C04-D6")
+	c04Normalize(c, "C04-D6")
 	c05Halving(c, "C04-D6")
 	// the property also speaks of rank lookups, merges from any store kind, copies, clears and reweightings of the
 	// three non-collapsing stores: the obligations that decide those clauses live with C01, C02, C14, C15 and C16
@@ -415,7 +416,7 @@ func c04Iteration(c *Ctx, impls []*types.Named, rule string) {
 					// count taken from an array element must have been tested non-zero/positive on the path
 					var elem *Term
 					cnt.walk(func(x *Term) bool {
-						if x.Op == "index" && elem == nil && isFloatTerm(x) {
+						if x.Op == "index" && elem == nil { // the count argument: any array element in it is a weight
 							elem = x
 						}
 						return true
@@ -468,6 +469,54 @@ func c04Iteration(c *Ctx, impls []*types.Named, rule string) {
 			}
 		}
 		c.R.check(closes, rule, funcName(bf)+"/closes-channel", funcName(bf), c.fpos(bf), "the producer goroutine defers close(ch), so the channel is closed on every exit", "")
+		// the producer sends only non-empty array entries (same obligation as ForEach/skips-empty)
+		if t.Obj().Name() != "SparseStore" {
+			for _, g := range bf.AnonFuncs {
+				paths, _ := exec(c, g, nil, 2)
+				bad := ""
+				nSend := 0
+				for _, p := range paths {
+					var cnt *Term
+					for _, e := range p.Effects {
+						if e.Kind == "store" && e.Addr.Op == "field" && isFloatField(e.Addr) {
+							cnt = e.Val
+						}
+						if e.Kind != "send" || cnt == nil {
+							continue
+						}
+						nSend++
+						var elem *Term
+						cnt.walk(func(x *Term) bool {
+							if x.Op == "index" && elem == nil {
+								elem = x
+							}
+							return true
+						})
+						if elem != nil {
+							tested := false
+							for _, cd := range p.Conds {
+								if cd.Seq > e.Seq {
+									continue
+								}
+								tm := cd.Term
+								if tm.Op == "bin" && (tm.Args[0].Key() == elem.Key() && tm.Args[1].isConst("0") || tm.Args[1].Key() == elem.Key() && tm.Args[0].isConst("0")) {
+									if tm.Sym == "<" && tm.Args[0].isConst("0") && cd.Taken || tm.Sym == "==" && !cd.Taken || tm.Sym == "!=" && cd.Taken {
+										tested = true
+									}
+								}
+							}
+							if !tested {
+								bad = "an array entry is sent without having been tested non-empty: " + shorten(elem.Key(), 100)
+							}
+						}
+						cnt = nil
+					}
+				}
+				if nSend > 0 {
+					c.R.check(bad == "", rule, funcName(g)+"/skips-empty", funcName(g), c.fpos(g), "only non-empty array entries are sent", firstNonEmpty(bad, fmt.Sprintf("%d send(s) on the enumerated paths", nSend)))
+				}
+			}
+		}
 	}
 	// twins: paginated ForEach vs Bins
 	if pr := c.paginated(); pr.err == "" {
@@ -898,6 +947,36 @@ func c04PaginatedEmptiness(c *Ctx, pr *paginatedRoles) {
 			r := tc.Of(ret.Results[0])
 			switch {
 			case r.isConst("false"):
+				// inside the scan, "not empty" is answered from a line that holds weight: the return is controlled by
+				// `line > 0` (or `line != 0`) taken — allocated pages hold zeros (decoded zero counts, cancelled weights)
+				if hdr != nil && hdr.Dominates(b) && b != hdr {
+					inScan := false
+					for _, l := range naturalLoops(f) {
+						if id := b.Idom(); l.header == hdr && id != nil && l.body[id] {
+							inScan = true // the return leaves the scan from one of its blocks
+						}
+					}
+					if id := b.Idom(); inScan && id != nil {
+						if iff, ok := id.Instrs[len(id.Instrs)-1].(*ssa.If); ok {
+							t := tc.Of(iff.Cond)
+							taken := id.Succs[0] == b
+							isLine := func(x *Term) bool {
+								x = stripConv(x)
+								return x.Op == "index" && x.Args[0].Op == "index" && isRecvField(x.Args[0].Args[0], pagesF)
+							}
+							okPol := false
+							switch {
+							case t.isBin("<") && t.Args[0].isConst("0") && isLine(t.Args[1]):
+								okPol = taken
+							case (t.isBin("!=") || t.isBin("==")) && (t.Args[0].isConst("0") && isLine(t.Args[1]) || t.Args[1].isConst("0") && isLine(t.Args[0])):
+								okPol = taken == t.isBin("!=")
+							}
+							if !okPol {
+								bad = firstNonEmpty(bad, "answers non-empty from inside the scan without the evidence that the line holds weight: "+t.Key())
+							}
+						}
+					}
+				}
 			case r.isConst("true"):
 				nTrue++
 				if hdr == nil || !hdr.Dominates(b) {
@@ -1125,4 +1204,77 @@ func c04PageUse(c *Ctx, pr *paginatedRoles, rule string) {
 		c.R.check(bad == "", rule, "page-use/"+helperKey(f), shortFn(f), c.fpos(f), "elements of a page are touched only after the page was created (ensureExists = true) or shown non-empty by its length", firstNonEmpty(bad, fmt.Sprintf("%d element access(es)", nAcc)))
 	}
 	c.R.floor(rule, "methods touching elements of a page returned by the accessor", n, 3)
+}
+
+// isFloatField: the address is a field of type float64 (the count of a Bin being built).
+func isFloatField(addr *Term) bool {
+	if addr == nil || addr.V == nil {
+		return addr != nil && addr.Sym == "count"
+	}
+	if pt, ok := addr.V.Type().Underlying().(*types.Pointer); ok {
+		return pt.Elem().String() == "float64"
+	}
+	return false
+}
+
+// c04Normalize: the dense store's slot of an index is index − offset, and a slot is handed out only for an index
+// inside the window: a path that does not extend the range to the index has established min ≤ index ≤ max; a path that
+// extends it passes (index, index) and computes the slot from the offset as it is AFTER the extension.
+func c04Normalize(c *Ctx, rule string) {
+	dense := c.P.NamedType(pkgStore, "DenseStore")
+	if dense == nil {
+		return
+	}
+	f := c.P.DeclaredMethod(dense, "normalize")
+	if f == nil {
+		return // no such helper: its obligations are the add paths' (C04-D1/D2)
+	}
+	paths, _ := exec(c, f, nil, 1)
+	bad := ""
+	for _, p := range paths {
+		if len(p.RetT) != 1 {
+			continue
+		}
+		extSeq := -1
+		for _, e := range p.Calls() {
+			if isMethodCall(e.Call, "extendRange") && len(e.Call.Args) == 3 {
+				extSeq = e.Seq
+				if !(e.Call.Args[0].isParam(0) && e.Call.Args[1].isParam(1) && e.Call.Args[2].isParam(1)) {
+					bad = "the range is extended to " + e.Call.Key() + ", not to the index"
+				}
+			}
+		}
+		r := stripVers(p.RetT[0])
+		if !(r.isBin("-") && r.Args[0].isParam(1) && isRecvField(r.Args[1], dr.offset)) {
+			bad = firstNonEmpty(bad, "the slot is "+r.Key()+", not index − offset")
+		}
+		if extSeq < 0 {
+			lo, hi := false, false
+			for _, cd := range p.Conds {
+				t := cd.Term
+				if t.isBin("<") && !cd.Taken && t.Args[0].isParam(1) && isRecvField(t.Args[1], dr.minIndex) {
+					lo = true // !(index < min)
+				}
+				if t.isBin("<") && !cd.Taken && isRecvField(t.Args[0], dr.maxIndex) && t.Args[1].isParam(1) {
+					hi = true // !(max < index)
+				}
+				if t.isBin("<=") && cd.Taken && isRecvField(t.Args[0], dr.minIndex) && t.Args[1].isParam(1) {
+					lo = true
+				}
+				if t.isBin("<=") && !cd.Taken && t.Args[0].isParam(1) && isRecvField(t.Args[1], dr.minIndex) {
+					lo = true // !(index ≤ min): strictly inside, a fortiori
+				}
+				if t.isBin("<=") && !cd.Taken && isRecvField(t.Args[0], dr.maxIndex) && t.Args[1].isParam(1) {
+					hi = true // !(max ≤ index)
+				}
+				if t.isBin("<=") && cd.Taken && t.Args[0].isParam(1) && isRecvField(t.Args[1], dr.maxIndex) {
+					hi = true
+				}
+			}
+			if !lo || !hi {
+				bad = firstNonEmpty(bad, fmt.Sprintf("a slot is handed out without extending the range although min ≤ index ≤ max is not established (lower=%v upper=%v)", lo, hi))
+			}
+		}
+	}
+	c.R.check(bad == "" && len(paths) > 0, rule, "DenseStore.normalize/slot-inside-window", shortFn(f), c.fpos(f), "slot = index − offset, handed out only for an index inside the window or after extending the range to it", firstNonEmpty(bad, fmt.Sprintf("%d path(s)", len(paths))))
 }
